@@ -123,6 +123,7 @@ open_("C18", "D49", "C18/alias-tokens-differ@trailing-backslash", [],
 fixed("C18", "D48", "^fix: alias tokenizer keeps empty quoted", "alias.zz=\"log ''\": git splits the value into `log` and an empty argument, parse_alias_tokens dropped the empty argument, and because the proxy hands git the expansion (D41) the proxied command differed from what git runs for the alias", "c18.alias_value_with_empty_quoted_argument")
 fixed("C12", "D46", "^fix: notes search pins --no-color", "with color.ui=always (or color.grep=always) a rebase that takes the full replay (upstream changed the same file above the AI lines) wrote notes listing the session but with an empty prompts object: grep_ai_notes parsed coloured `git grep` output and found nothing (hash without prompt record; result depends on git configuration)", "c12.color_ui_always_hides_prompt_records_in_rebased_notes")
 fixed("C03", "D47", "^fix: blaming an empty commit range", "main holds S1's lines 6-7 right below a person's line 5; on a branch the person (no agent) inserts a token into line 5 and deletes line 4; `git merge --squash br`; commit => the person's line (now line 4) was committed as S1's: the target side was blamed over the empty range X..X, for which git silently blames the work tree, so S1's line numbers were off by the lines removed above them", "c03.squash_person_modifies_line_above_ai_block")
+fixed("C03", "D50", "^fix: a line rewritten on the merged side", "main holds session S2's lines 4-5 of f.txt (`# tokA ..`, `tokB ..`); on a branch session S1 replaces them by three lines, one of which also starts with `# `; `git merge --squash br`; commit => S1's line 5 was committed as S2's: on the favoured (target) side of merge_attributions_favoring_first the `# ` left over from S2's old line owned the rewritten line (placeholder author had the same timestamp) and outranked the branch side", "c03.squash_other_session_replaces_lines_with_shared_prefix")
 open_("C11", "D8", "C11/not-serializable@overlapping-journal-windows", [],
       "schedule: two `git-ai checkpoint` processes (agents S1 on a.txt, S2 on b.txt) both pass their read of .git/ai/working_logs/<HEAD>/checkpoints.jsonl before either writes it back (append_checkpoint and post-commit read-modify-write the journal with no lock) => the later write drops the other record and that agent's line is committed as human; identified by call site: any non-serializable outcome whose schedule has two journal read..exit windows overlapping is counted as this finding",
       "c11.two_checkpoints_both_read_before_either_writes", [])
